@@ -285,6 +285,12 @@ class Inliner:
                                 and n.id not in f.module.assigns and n.id not in f.module.classes and n.id not in f.module.functions:
                             f.module.imports[n.id] = h.module.imports[n.id]
                             continue
+                        # a class / function the helper's module defines and the caller's module does not know (the caller used to
+                        # import LRU and PLRU itself, now it imports the helper that names them): made visible as an import
+                        if (n.id in h.module.classes or n.id in h.module.functions) and self.model.resolve_name(f.module, n.id) is None \
+                                and ".".join(h.qname.split(".")[-2:]) not in (getattr(self.model, "known_functions", None) or {".".join(h.qname.split(".")[-2:])}):
+                            f.module.imports[n.id] = h.module.name + "." + n.id
+                            continue
                         if n.id in h.module.assigns and n.id not in f.module.assigns and self.model.resolve_name(f.module, n.id) is None \
                                 and isinstance(h.module.assigns[n.id], (ast.Dict, ast.Tuple, ast.List, ast.Set, ast.Constant)):
                             f.module.assigns[n.id] = h.module.assigns[n.id]
@@ -351,6 +357,8 @@ class Inliner:
             call, mode = st.value, "expr"
         elif isinstance(st, ast.Assign) and isinstance(st.value, ast.Call):
             call, mode = st.value, "assign"
+        elif isinstance(st, ast.AnnAssign) and isinstance(st.value, ast.Call):
+            call, mode = st.value, "annassign"
         elif isinstance(st, ast.Return) and isinstance(st.value, ast.Call):
             call, mode = st.value, "return"
         if call is None:
@@ -372,6 +380,9 @@ class Inliner:
                 return [ast.copy_location(ast.Expr(value=val), at)]
             if mode == "assign":
                 return [ast.copy_location(ast.Assign(targets=copy.deepcopy(st.targets), value=val, lineno=at.lineno), at)]  # type: ignore[attr-defined]
+            if mode == "annassign":
+                return [ast.copy_location(ast.AnnAssign(target=copy.deepcopy(st.target), annotation=copy.deepcopy(st.annotation), value=val,  # type: ignore[attr-defined]
+                                                        simple=st.simple), at)]  # type: ignore[attr-defined]
             return [ast.copy_location(ast.Return(value=val), at)]
 
         if not _always_leaves(body):
